@@ -10,3 +10,6 @@ open Femio.C03
 #print axioms C03_solution_type_known
 #print axioms C03_boundary_dof_gt3_lost
 #print axioms C03_line_roundtrip
+#print axioms C03_file_roundtrip
+#print axioms C03_roundtrip
+#print axioms C03_cflux_both_merged
